@@ -418,9 +418,10 @@ func c07diamonds(t *testing.T, rep *lib.Report) {
 func TestC07(t *testing.T) {
 	rep := lib.NewReport("C07", "model_checking")
 	defer rep.Finish(t)
-	rep.Rule = "histories built with the real operations inside a fake-clock bubble (+ injected index-file keys): repos = all subsets of {a,ab,a-b,b}; 0..5 bundles with an interrupted upload at every position, 4 label sets x 3 prefix filters; 0..3 diamonds x 0..3 splits (running/done, user-supplied IDs) x {0,1,3} index files x 1..2 generations, diamond states initialized/done/canceled; every list function (and its Apply variant) with EVERY page size 1..K+1 (K = keys under the scanned prefix) and 1024, concurrency {1,2,32}; oracle: multiset = existing objects (complete / exactly once / nothing else), sequence identical for every page size, sequence = documented order; distinct = distinct histories"
+	rep.Rule = "histories built with the real operations inside a fake-clock bubble (+ injected index-file keys): repos = all subsets of {a,ab,a-b,b}; 0..5 bundles with an interrupted upload at every position, 4 label sets x 3 prefix filters; 0..3 diamonds x 0..3 splits (running/done, user-supplied IDs) x {0,1,3} index files x 1..2 generations, diamond states initialized/done/canceled; every list function (and its Apply variant) with EVERY page size 1..K+1 (K = keys under the scanned prefix) and 1024, concurrency {1,2,32}; oracle: multiset = existing objects (complete / exactly once / nothing else), sequence identical for every page size, sequence = documented order; plus every listing function (page size 2) under every single transient fault at each of its metadata calls (fail before / hang then fail): either an error or exactly the existing objects; distinct = distinct histories"
 	_ = context2.New
 	c07repos(t, rep)
 	c07bundles(t, rep)
 	c07diamonds(t, rep)
+	listingFaultSweep(t, rep, "C07", []string{"repos", "bundles", "labels", "diamonds", "splits"})
 }
